@@ -19,6 +19,7 @@ import (
 	"os/exec"
 	"path/filepath"
 	"sort"
+	"strings"
 	"testing"
 	"time"
 
@@ -27,8 +28,16 @@ import (
 	sdk "github.com/cosmos/cosmos-sdk/types"
 	govtypes "github.com/cosmos/cosmos-sdk/x/gov/types"
 	govv1 "github.com/cosmos/cosmos-sdk/x/gov/types/v1"
+	coinswaptypes "mods.irisnet.org/modules/coinswap/types"
+	farmtypes "mods.irisnet.org/modules/farm/types"
 	htlctypes "mods.irisnet.org/modules/htlc/types"
+	mttypes "mods.irisnet.org/modules/mt/types"
+	nfttypes "mods.irisnet.org/modules/nft/types"
+	oracletypes "mods.irisnet.org/modules/oracle/types"
+	randomtypes "mods.irisnet.org/modules/random/types"
+	recordtypes "mods.irisnet.org/modules/record/types"
 	servicetypes "mods.irisnet.org/modules/service/types"
+	tokenv1 "mods.irisnet.org/modules/token/types/v1"
 	"mods.irisnet.org/simapp"
 	"pgregory.net/rapid"
 
@@ -126,6 +135,26 @@ func diffDigest(a, b blockDigest) string {
 	return ""
 }
 
+// oddReads are queries with arguments no client was ever given: empty, short, odd-length and unknown ids.
+func oddReads(n *chain.Node) []query {
+	var qs []query
+	for _, id := range []string{"", "0", "05", "ff", "zz", strings.Repeat("ab", 31), strings.Repeat("cd", 33)} {
+		qs = append(qs,
+			query{"/irismod.record.Query/Record", &recordtypes.QueryRecordRequest{RecordId: id}, "record " + id},
+			query{"/irismod.htlc.Query/HTLC", &htlctypes.QueryHTLCRequest{Id: id}, "htlc " + id},
+			query{"/irismod.service.Query/RequestContext", &servicetypes.QueryRequestContextRequest{RequestContextId: id}, "context " + id},
+			query{"/irismod.service.Query/Request", &servicetypes.QueryRequestRequest{RequestId: id}, "request " + id},
+			query{"/irismod.random.Query/Random", &randomtypes.QueryRandomRequest{ReqId: id}, "random " + id},
+			query{"/irismod.oracle.Query/Feed", &oracletypes.QueryFeedRequest{FeedName: id}, "feed " + id},
+			query{"/irismod.token.v1.Query/Token", &tokenv1.QueryTokenRequest{Denom: id}, "token " + id},
+			query{"/irismod.farm.Query/FarmPool", &farmtypes.QueryFarmPoolRequest{Id: id}, "farm pool " + id},
+			query{"/irismod.coinswap.Query/LiquidityPool", &coinswaptypes.QueryLiquidityPoolRequest{LptDenom: id}, "pool " + id},
+			query{"/irismod.nft.Query/Denom", &nfttypes.QueryDenomRequest{DenomId: id}, "nft class " + id},
+			query{"/irismod.mt.Query/Denom", &mttypes.QueryDenomRequest{DenomId: id}, "mt class " + id})
+	}
+	return qs
+}
+
 // runBlock signs and executes one block of the history on a node.
 func runBlock(n *chain.Node, op blockOp) (*abci.ResponseFinalizeBlock, error) {
 	txs := make([]chain.Tx, 0, len(op.Txs))
@@ -181,6 +210,7 @@ type c11Machine struct {
 	variant    string
 	txs, okTxs int
 	maxTxs     int
+	queries    int
 }
 
 func mustNode() *chain.Node {
@@ -282,6 +312,19 @@ func (m *c11Machine) applyOne(op blockOp) error {
 	m.h.observe(op, resp0)
 	m.ops = append(m.ops, op)
 	m.digests = append(m.digests, d0)
+	// R1 is a node that also serves clients: between blocks it answers the whole query catalogue (plus reads with
+	// ids nobody was given) on query contexts of the committed height, as the gRPC server does. Reads must leave no
+	// trace that a later block can see - the per-block comparison with R0, which serves nothing, decides.
+	if qctx, err := m.r1.App.CreateQueryContext(m.r1.Height, false); err == nil {
+		qs := catalogue(m.r1, qctx, m.h.w)
+		qs = append(qs, oddReads(m.r1)...)
+		for _, q := range qs {
+			if _, err := runQuery(m.r1, qctx, q); err != nil {
+				return pbt.Failf("harness/query", "%v", err)
+			}
+			m.queries++
+		}
+	}
 	for _, r := range resp0.TxResults {
 		m.txs++
 		if r.Code == 0 {
@@ -463,6 +506,9 @@ func (m *c11Machine) Classify() (bool, []string) {
 	}
 	if m.okTxs >= 20 {
 		cl = append(cl, "ok-txs>=20")
+	}
+	if m.queries >= 1000 {
+		cl = append(cl, "replica-served>=1000-queries")
 	}
 	cl = append(cl, m.h.w.shapeClasses()...)
 	return mods >= 6 && m.restarts > 0 && m.okTxs >= 10, cl
